@@ -20,7 +20,7 @@ NOT_SPEC = object()
 
 F_WSUM = z3.Function("wsum", z3.ArraySort(z3.IntSort(), z3.RealSort()), z3.ArraySort(z3.IntSort(), z3.RealSort()), z3.IntSort(), z3.RealSort())
 
-SPEC_FUNCS = {"old", "forall", "exists", "implies", "iff", "wsum", "exp", "log", "fresh", "same", "ite", "length", "pow", "written", "nwrites", "at_loop_entry", "divides", "is_int"}
+SPEC_FUNCS = {"sum_le", "sum_ext", "old", "forall", "exists", "implies", "iff", "wsum", "exp", "log", "fresh", "same", "ite", "length", "pow", "written", "nwrites", "at_loop_entry", "divides", "is_int"}
 
 
 class Contract:
@@ -179,6 +179,17 @@ def spec_call(interp, node, st):
         if rd is None or ra is None:
             raise ToolLimit("wsum over non-arrays")
         return F_WSUM(rd.term, ra.term, z(k))
+    if fn in ("sum_le", "sum_ext"):
+        # instances of library lemmas (proved by induction in vc/lemmas.py); only meaningful as hypotheses
+        dz, x, y, k = [interp.ev(e, st) for e in a]
+        rd, rx, ry = interp.arr(st, dz), interp.arr(st, x), interp.arr(st, y)
+        j = z3.Int("jl!q%d" % next(interp.ctx.counter))
+        kk = z(k)
+        if fn == "sum_le":
+            prem = z3.ForAll([j], z3.Implies(z3.And(j >= 0, j < kk), z3.And(z3.Select(rd.term, j) >= 0, z3.Select(rx.term, j) <= z3.Select(ry.term, j))))
+            return z3.Implies(prem, F_WSUM(rd.term, rx.term, kk) <= F_WSUM(rd.term, ry.term, kk))
+        prem = z3.ForAll([j], z3.Implies(z3.And(j >= 0, j < kk), z3.Select(rx.term, j) == z3.Select(ry.term, j)))
+        return z3.Implies(prem, F_WSUM(rd.term, rx.term, kk) == F_WSUM(rd.term, ry.term, kk))
     if fn == "exp":
         return V.v_exp(interp.ev(a[0], st))
     if fn == "log":
